@@ -59,4 +59,11 @@ LitBytes(ts) ==
   LET F[k \in 0..Len(ts)] == IF k = 0 THEN 0
                              ELSE F[k-1] + (IF IsLit(ts[k]) THEN Len(ts[k].lit) ELSE 0)
   IN F[Len(ts)]
+
+(* C16: literal data a greedy sender may spend on a file that differs from *)
+(* the receiver's copy by `edits` local edits inserting `ins` new bytes:   *)
+(* per edit at most the unmatched head and tail of the blocks it touches   *)
+(* (each shorter than one block), plus `slack` bytes that cannot match for *)
+(* structural reasons (a short last block moved away from the end).        *)
+LiteralBoundOf(ins, slack, B, edits) == ins + slack + 2 * (B - 1) * edits
 =============================================================================
